@@ -9,8 +9,14 @@
     document (-> hexPayload string): ARBITRARY functions, nothing is assumed about them.
     [exec_req o] is the keeper-level request of an execute operation: job id, supplied payload
     ([None] = nil), sender / contract address ([None] = nil), and the environment's answers
-    [x_pre] (the PreJobExecution hook enqueued a valset update) and [x_pick] (relayer selection:
-    [Some assignee] or [None] = error; selection itself is property C14).  [from_hex] is the strict
+    [x_pre] ([Some vid]: the PreJobExecution hook reaches SendValsetMsgForChain with the current
+    snapshot's id; what that function does to the queue is part of the model) and [x_pick] (relayer
+    selection: [Some assignee] or [None] = error; selection itself is property C14).  Histories also
+    contain the environment's steps: [OPublish] (snapshot listener publishing a valset),
+    [OGenesisRoundTrip] (export + import of the scheduler module's genesis), [OBlock] (its block hooks).
+    [queue] is the live content of the turnstone queues; [drop_valsets c q] is [q] without the
+    valset updates of chain [c], [has_valset c v q] says that an update of [c] with id [v] is in [q],
+    [hook_queue chs q c pre] is what the hook leaves of [q].  [from_hex] is the strict
     reading of a hex string (optional 0x, odd length padded on the left, every character a hex
     digit), [pad32] = zeroPadBytes(_, 32), [caller_of sender contract] = the sender if present,
     else the contract.  [calls_of q] are the contract calls among the queue messages [q]. *)
@@ -29,9 +35,14 @@ Proof. exact JobsProofs.job_ids_unique. Qed.
 Print Assumptions job_ids_unique.
 
 (** Whatever is stored under an id stays there, field for field (id, owner, chain type and
-    reference, definition, payload, modifiable flag, MEV flag), through every continuation. *)
+    reference, definition, payload, modifiable flag, MEV flag), through every continuation made of
+    requests of any entry point (create / execute by accounts, contracts, keeper callers; accepted
+    or not), snapshot publications and block hooks.  The single excluded step is not a request: a
+    genesis export / import of the module, which carries no jobs (see
+    [genesis_round_trip_drops_jobs]; witness JobsProofs.job_immutable_across_genesis_round_trip_refuted). *)
 Theorem job_immutable :
   forall dd dp chs (ops ops' : list op) (id : bytes) (j : job),
+  ~ In OGenesisRoundTrip ops' ->
   job_at (run dd dp chs ops) id = Some j ->
   job_at (run dd dp chs (ops ++ ops')) id = Some j.
 Proof. exact JobsProofs.job_immutable. Qed.
@@ -40,6 +51,7 @@ Print Assumptions job_immutable.
 (** The store only grows at its end: no entry is rewritten, reordered or removed. *)
 Theorem jobs_only_appended :
   forall dd dp chs (ops ops' : list op),
+  ~ In OGenesisRoundTrip ops' ->
   exists l, jobs (run dd dp chs (ops ++ ops')) = jobs (run dd dp chs ops) ++ l.
 Proof. exact JobsProofs.jobs_only_appended. Qed.
 Print Assumptions jobs_only_appended.
@@ -53,7 +65,9 @@ Proof. exact JobsProofs.stored_job_is_created_job. Qed.
 Print Assumptions stored_job_is_created_job.
 
 (** A successful execute request — by an account through the msg server, by a contract through
-    the bindings, or directly at the keeper — after ANY history: *)
+    the bindings, or directly at the keeper — after ANY history: the live queue afterwards is the
+    queue before, where the valset hook either did nothing or replaced every queued valset update
+    of the job's chain by exactly one new one, followed by exactly one contract call. *)
 Theorem execute_enqueues_exactly_stored_call :
   forall dd dp chs (ops : list op) (o : op) (x : exec_in),
   let s := run dd dp chs ops in
@@ -61,7 +75,12 @@ Theorem execute_enqueues_exactly_stored_call :
   snd (step_res dd dp s o) = Ok ->
   exists (j : job) (c : call),
     job_at s (x_id x) = Some j /\ jobs (step dd dp s o) = jobs s /\
-    queue (step dd dp s o) = queue s ++ (if x_pre x then [QValset (j_cref j)] else []) ++ [QCall c] /\
+    queue (step dd dp s o) =
+      match x_pre x with
+      | Some v => if has_valset (j_cref j) v (queue s) then queue s
+                  else drop_valsets (j_cref j) (queue s) ++ [QValset (j_cref j) (c_turnstone c) v]
+      | None => queue s
+      end ++ [QCall c] /\
     c_chain c = j_cref j /\ chain_info chs (j_cref j) = Some (c_turnstone c) /\
     (exists abi, dd (j_def j) = Some (abi, c_contract c)) /\
     x_pick x = Some (c_assignee c) /\ c_mev c = j_mev j /\
@@ -79,15 +98,15 @@ Print Assumptions execute_enqueues_exactly_stored_call.
     the call, followed by the contract's own address padded to 32 bytes — given only that Go's JSON
     decoder reads back the hex string of the document the binding printed. *)
 Theorem wasm_execute_calls_with_raw_payload :
-  forall dd dp chs (ops : list op) (id raw caddr : bytes) (pre : bool) (pick : option Z) (atm : bool),
+  forall dd dp chs (ops : list op) (id raw caddr claimed : bytes) (pre : option Z) (pick : option Z) (atm : bool),
   let s := run dd dp chs ops in
-  let o := OWasmExec id raw caddr pre pick atm in
+  let o := OWasmExec id raw caddr claimed pre pick atm in
   dp (wasm_wrap raw) = Some (hex_encode raw) ->
   Forall is_byte raw ->
   snd (step_res dd dp s o) = Ok ->
   exists (j : job) (c : call) (sfx : bytes),
     job_at s id = Some j /\ j_modifiable j = true /\ raw <> [] /\
-    queue (step dd dp s o) = queue s ++ (if pre then [QValset (j_cref j)] else []) ++ [QCall c] /\
+    queue (step dd dp s o) = hook_queue chs (queue s) (j_cref j) pre ++ [QCall c] /\
     pad32 caddr = Some sfx /\ c_payload c = raw ++ sfx /\
     c_sender c = Some caddr /\ c_contractaddr c = Some caddr.
 Proof. exact JobsProofs.wasm_execute_calls_with_raw_payload. Qed.
@@ -120,7 +139,8 @@ Print Assumptions hex_decoding_exact.
 
 (** A failed request — any operation, any reason (unknown job, fixed payload overridden, bad JSON,
     bad hex, unknown chain, caller longer than 32 bytes, relayer selection failed, binding
-    validation, rejected create) — changes no job and enqueues no contract call; delivered as a
+    validation, rejected create, MsgExecuteJob not authorised by its signers, the msg server's nil
+    dereference for a creator without account) — changes no job and enqueues no contract call; delivered as a
     transaction it leaves no trace at all; otherwise the only possible trace is the valset update
     of the hook. *)
 Theorem failed_execute_enqueues_none :
@@ -131,8 +151,8 @@ Theorem failed_execute_enqueues_none :
   calls_of (queue (step dd dp s o)) = calls_of (queue s) /\
   (atomic_op o = true -> step dd dp s o = s) /\
   (step dd dp s o = s \/
-   exists x j, exec_req o = Some x /\ job_at s (x_id x) = Some j /\ x_pre x = true /\
-               queue (step dd dp s o) = queue s ++ [QValset (j_cref j)]).
+   exists x j, exec_req o = Some x /\ x_atomic x = false /\ job_at s (x_id x) = Some j /\
+               queue (step dd dp s o) = hook_queue chs (queue s) (j_cref j) (x_pre x)).
 Proof. exact JobsProofs.failed_execute_enqueues_none. Qed.
 Print Assumptions failed_execute_enqueues_none.
 
@@ -151,6 +171,7 @@ Print Assumptions requests_add_at_most_one_call.
     non-modifiable job that document is the stored payload. *)
 Theorem every_call_is_a_stored_jobs_call :
   forall dd dp chs (ops : list op) (c : call),
+  ~ In OGenesisRoundTrip ops ->
   In c (calls_of (queue (run dd dp chs ops))) ->
   exists j, In j (jobs (run dd dp chs ops)) /\
     c_chain c = j_cref j /\ c_mev c = j_mev j /\
@@ -162,6 +183,144 @@ Theorem every_call_is_a_stored_jobs_call :
       (j_modifiable j = false -> base = j_payload j).
 Proof. exact JobsProofs.every_call_is_a_stored_jobs_call. Qed.
 Print Assumptions every_call_is_a_stored_jobs_call.
+
+(** The live turnstone queues, in every reachable state: each message carries the turnstone id
+    of its chain, and a chain's queue holds AT MOST ONE valset update.  (This is what makes the
+    "at most one valset update + exactly one call" of [execute_enqueues_exactly_stored_call] exact:
+    the hook's scan never meets a foreign turnstone id, and deleting "every other update" deletes
+    at most one.) *)
+Theorem queue_invariants :
+  forall dd dp chs (ops : list op),
+  (forall m, In m (queue (run dd dp chs ops)) -> chain_info chs (q_chain m) = Some (q_ts m)) /\
+  (forall c, count_valsets c (queue (run dd dp chs ops)) <= 1)%nat.
+Proof. exact JobsProofs.queue_invariants. Qed.
+Print Assumptions queue_invariants.
+
+(** msgSender.SendValsetMsgForChain as a function of the queue ([send_valset], the scan as the
+    code does it): it never adds or removes a contract call; on a queue where the chain's messages
+    carry the chain's turnstone id and hold at most one update it is: nothing, if an update with
+    this id is queued; otherwise all updates of the chain dropped and the new one appended. *)
+Theorem valset_hook_exact :
+  (forall c ts v q, calls_of (send_valset c ts v q) = calls_of q) /\
+  (forall c ts v q, ts_ok_for c ts q -> (count_valsets c q <= 1)%nat ->
+     send_valset c ts v q = if has_valset c v q then q else drop_valsets c q ++ [QValset c ts v]) /\
+  (forall chs q c pre, others c (hook_queue chs q c pre) = others c q).
+Proof. exact (conj send_valset_calls (conj send_valset_closed hook_queue_others)). Qed.
+Print Assumptions valset_hook_exact.
+
+(** The identity in the suffix is the REAL caller's, for every entry point that exists: the
+    creator of a MsgExecuteJob that ValidateBasic and the ante handler let through (and who has an
+    account), the contract that dispatched the wasm message -- new or legacy -- whatever its body
+    names as sender.  Any state. *)
+Theorem run_suffix_is_real_caller :
+  forall dd dp (s : state) (o : op) (a : bytes),
+  real_caller o = Some a ->
+  snd (step_res dd dp s o) = Ok ->
+  exists q c b sfx,
+    queue (step dd dp s o) = q ++ [QCall c] /\
+    pad32 a = Some sfx /\ List.length sfx = 32%nat /\ c_payload c = b ++ sfx /\
+    c_sender c = Some a /\
+    match o with
+    | OMsgExec _ au ac _ _ _ _ _ => au = true /\ ac = true /\ c_contractaddr c = None
+    | _ => c_contractaddr c = Some a
+    end.
+Proof. exact JobsProofs.run_suffix_is_real_caller. Qed.
+Print Assumptions run_suffix_is_real_caller.
+
+(** A job with a fixed payload cannot be run by a contract at all (both bindings always supply a
+    payload document, which ScheduleNow refuses): a restriction on who can run it, not a wrong run
+    -- by [failed_execute_enqueues_none] nothing is enqueued. *)
+Theorem contract_cannot_run_fixed_job :
+  forall dd dp (s : state) (id raw caddr claimed : bytes) (pre pick : option Z) (atm : bool) (j : job),
+  job_at s id = Some j -> j_modifiable j = false ->
+  snd (step_res dd dp s (OWasmExec id raw caddr claimed pre pick atm)) <> Ok /\
+  snd (step_res dd dp s (OLegacyExec id raw caddr claimed pre pick atm)) <> Ok.
+Proof. exact JobsProofs.contract_cannot_run_fixed_job. Qed.
+Print Assumptions contract_cannot_run_fixed_job.
+
+(** Genesis: the exported state carries no jobs and the import writes none.  After a round trip the
+    job store is empty (nothing is created or altered by an import; everything is lost), queues and
+    chains are not the module's; and whatever is stored later was created after the round trip. *)
+Theorem genesis_round_trip_drops_jobs :
+  (forall dd dp s,
+     jobs (step dd dp s OGenesisRoundTrip) = [] /\ queue (step dd dp s OGenesisRoundTrip) = queue s /\
+     chains (step dd dp s OGenesisRoundTrip) = chains s /\ snd (step_res dd dp s OGenesisRoundTrip) = Ok) /\
+  (forall dd dp chs ops ops' j,
+     In j (jobs (run dd dp chs (ops ++ OGenesisRoundTrip :: ops'))) -> In (OCreate j true) ops').
+Proof. exact (conj JobsProofs.genesis_round_trip_drops_jobs JobsProofs.stored_job_created_since_last_round_trip). Qed.
+Print Assumptions genesis_round_trip_drops_jobs.
+
+(** The other steps of the environment: a snapshot publication touches no job, no contract call and
+    no other chain's queue (it is the hook, on its own); the module's block hooks do nothing. *)
+Theorem environment_steps_touch_only_valset_updates :
+  forall dd dp chs (ops : list op) (c : bytes) (pre : option Z),
+  let s := run dd dp chs ops in
+  jobs (step dd dp s (OPublish c pre)) = jobs s /\
+  queue (step dd dp s (OPublish c pre)) = hook_queue chs (queue s) c pre /\
+  calls_of (queue (step dd dp s (OPublish c pre))) = calls_of (queue s) /\
+  others c (queue (step dd dp s (OPublish c pre))) = others c (queue s) /\
+  step dd dp s OBlock = s.
+Proof. exact JobsProofs.environment_steps_touch_only_valset_updates. Qed.
+Print Assumptions environment_steps_touch_only_valset_updates.
+
+(** Round 2 of the translation: EVERY function of the tree that calls AddNewJob / saveJob /
+    ScheduleNow / ExecuteJob / PreJobExecution / SendValsetMsgForChain or opens the jobs store (found
+    by name over all non-test, non-generated files) -- the model's operations are exactly these
+    entry points: msg server create / execute, the two wasm messengers, nothing in genesis, nothing
+    in Begin/EndBlock; the genesis state has no job field and Init/Export touch the params only; the
+    duplicate check, the store key and every lookup use the submitted id string untransformed
+    ([]byte(id), Job.GetID = the field); what each entry point hands over as the caller (creator of
+    the message checked by the ante decorator; the router's contractAddr, the message's own sender
+    member never read; the legacy message has no sender member); and the shape of
+    SendValsetMsgForChain that [send_scan] mirrors (read queue, loop: foreign turnstone => return,
+    same valset id => return, else DeleteJob; then put). *)
+Theorem entry_points_are_of_current_source :
+  Gen.C17.entry_points =
+    ["x/evm/keeper/keeper.go:Keeper.PublishValsetToChain -> SendValsetMsgForChain";
+     "x/evm/keeper/keeper.go:Keeper.justInTimeValsetUpdate -> SendValsetMsgForChain";
+     "x/scheduler/bindings/legacy.go:customLegacyMessenger.DispatchMsg -> ExecuteJob";
+     "x/scheduler/bindings/msg_plugin.go:customMessenger.executeJob -> ExecuteJob";
+     "x/scheduler/keeper/keeper.go:Keeper.AddNewJob -> saveJob";
+     "x/scheduler/keeper/keeper.go:Keeper.ExecuteJob -> PreJobExecution";
+     "x/scheduler/keeper/keeper.go:Keeper.ExecuteJob -> ScheduleNow";
+     "x/scheduler/keeper/keeper.go:Keeper.GetJob -> jobsStore";
+     "x/scheduler/keeper/keeper.go:Keeper.JobIDExists -> jobsStore";
+     "x/scheduler/keeper/keeper.go:Keeper.PreJobExecution -> PreJobExecution";
+     "x/scheduler/keeper/keeper.go:Keeper.ScheduleNow -> ExecuteJob";
+     "x/scheduler/keeper/keeper.go:Keeper.saveJob -> jobsStore";
+     "x/scheduler/keeper/msg_server_create_job.go:msgServer.CreateJob -> AddNewJob";
+     "x/scheduler/keeper/msg_server_execute_job.go:msgServer.ExecuteJob -> ExecuteJob"]%string /\
+  Gen.C17.genesis_init_calls = ["k.SetParams(ctx, genState.Params)"]%string /\
+  Gen.C17.genesis_export_calls = ["types.DefaultGenesis()"; "k.GetParams(ctx)"]%string /\
+  Gen.C17.genesis_state_fields = ["Params"; "PortId"]%string /\
+  Gen.C17.block_hooks =
+    ["BeginBlocker: 0 statements"; "EndBlocker: 0 statements"; "AppModule.BeginBlock: return nil";
+     "AppModule.EndBlock: return nil"]%string /\
+  Gen.C17.job_id_keys =
+    ["JobIDExists: Has([]byte(jobID))"; "saveJob: Save([]byte(job.GetID()))"; "GetJob: Load([]byte(jobID))";
+     "AddNewJob: JobIDExists(job.GetID())"; "ExecuteJob: GetJob(jobID)"; "ScheduleNow: GetJob(jobID)";
+     "ExecuteJob: ScheduleNow(jobID)"; "Job.GetID: return m.ID | """""]%string /\
+  Gen.C17.msgserver_creator = "sdk.AccAddressFromBech32(msg.GetMetadata().GetCreator())"%string /\
+  Gen.C17.ante_checks_creator_authorisation = true /\
+  Gen.C17.binding_reads_message_sender = false /\
+  Gen.C17.binding_dispatch =
+    ["createJob(ctx, contractAddr, contractMsg.CreateJob)"; "executeJob(ctx, contractAddr, contractMsg.ExecuteJob)"]%string /\
+  Gen.C17.binding_create_msg = "schedulertypes.NewMsgCreateJob(contractAddr.String(), j)"%string /\
+  Gen.C17.legacy_execute_args = ["executeMsg.JobID"; "executeMsg.Payload"; "contractAddr"; "contractAddr"]%string /\
+  Gen.C17.legacy_message_fields = ["JobID"; "Payload"]%string /\
+  Gen.C17.router_dispatch =
+    ["h.scheduler.DispatchMsg(ctx, contractAddr, contractIBCPortID, *contractMsg.Scheduler)";
+     "h.legacyFallback.DispatchMsg(ctx, contractAddr, contractIBCPortID, msg)"]%string /\
+  Gen.C17.send_valset_shape = ["read queueName"; "for messages"; "put"]%string /\
+  Gen.C17.send_valset_loop =
+    ["mmsg.GetTurnstoneID() != string(chainInfo.GetSmartContractUniqueID()) => return nil";
+     "action, ok := mmsg.GetAction().(*types.Message_UpdateValset); ok =>";
+     "action.UpdateValset.Valset.ValsetID == valset.ValsetID => return nil";
+     "m.ConsensusKeeper.DeleteJob(ctx, queueName, msg.GetId())"]%string.
+Proof.
+  exact (conj eq_refl (conj eq_refl (conj eq_refl (conj eq_refl (conj eq_refl (conj eq_refl (conj eq_refl (conj eq_refl (conj eq_refl (conj eq_refl (conj eq_refl (conj eq_refl (conj eq_refl (conj eq_refl (conj eq_refl eq_refl))))))))))))))).
+Qed.
+Print Assumptions entry_points_are_of_current_source.
 
 (** The model mirrors the source as it is now (translated on every check): pad size and append
     order of injectSenderIntoPayload, the order sender-then-contract of the suffix source, what
